@@ -301,6 +301,18 @@ class Path:
         self.assume(c if d else z3.Not(c))
         return d
 
+    def choice(self):
+        """demonic binary choice of the environment (e.g. "this I/O call fails"): both outcomes are possible by
+        construction, so no feasibility query and no path-condition literal is needed"""
+        i = len(self.taken)
+        if i < len(self.prefix):
+            d = self.prefix[i]
+        else:
+            self.ver.push_work(self.taken + [False])
+            d = True
+        self.taken.append(d)
+        return d
+
     def prove(self, phi, name, kind="assert", where="", assume_form=None):
         """obligation: pc => phi.  Conjunctions are split into one query per conjunct.
         assume_form: an equivalent formula better suited as a hypothesis (skolemised, with triggers); it
@@ -332,6 +344,20 @@ class Path:
             self.ver.record(Obligation(name, kind, "proved", "trivial", path=list(self.taken), backend="simplify", where=where))
             return True
         t0 = time.time()
+        wo = getattr(self, "witness_ors", {}).get(phi.get_id())
+        if wo is not None:
+            # exists_fn: a disjunction over candidate witnesses; any single disjunct suffices
+            saved_to = self.ver.timeout_ms
+            self.ver.timeout_ms = min(saved_to, 5000)
+            try:
+                for d in wo[1]:
+                    if all(self._check(z3.Not(part))[0] == z3.unsat for part in _split_conj(d)):
+                        self.ver.record(Obligation(name, kind, "proved", path=list(self.taken), seconds=time.time() - t0, where=where))
+                        if kind != "post":
+                            self.assume(p)
+                        return True
+            finally:
+                self.ver.timeout_ms = saved_to
         r, m = self._check(z3.Not(p))
         dt = time.time() - t0
         dump = _os.environ.get("PYVC_DUMP")
